@@ -51,6 +51,7 @@ func genC19(c *Ctx) {
 	c19Codecs(c)
 	c19CodecKeys(c)
 	c19ScaleProbes(c)
+	c19CompositeProbes(c)
 	c19LargeProbes(c)
 	c19CkksDerived(c)
 	c19Aliases(c)
@@ -257,7 +258,7 @@ func c19EmitGenModuli(c *Ctx, L int, logQ, logP []int, d time.Duration) {
 	seen := map[uint64]bool{}
 	for i, x := range all {
 		switch {
-		case !ring.IsPrime(x):
+		case !c19IndepPrime(x):
 			detail = fmt.Sprintf("not-prime %d", x)
 		case seen[x]:
 			detail = fmt.Sprintf("duplicate %d", x)
@@ -401,7 +402,7 @@ func c19AcceptedProbes(c *Ctx, args string, p rlwe.Parameters, arithmetic bool) 
 			dDistinct = fmt.Sprintf("modulus %d occurs twice in Q∪P", x)
 		}
 		seen[x] = true
-		if !ring.IsPrime(x) || x&(nth-1) != 1 {
+		if !c19IndepPrime(x) || x&(nth-1) != 1 {
 			dPrime = fmt.Sprintf("modulus %d not prime or not 1 mod %d", x, nth)
 		}
 		if bits.Len64(x) > 61 {
